@@ -390,6 +390,7 @@ def version_edits(rng: random.Random, direction: str) -> List[Tuple[str, Callabl
         ('too-long', lambda l: l[:-2] + b'y' * 260 + b'\r\n', 'effective'),
         ('garbage', lambda l: bytes(rng.randrange(32, 127) for _ in range(12)) + b'\r\n', 'effective'),
         ('case', lambda l: l.replace(b'SSH-', b'ssh-', 1), 'effective'),
+        ('high-byte', lambda l: l[:12] + bytes([l[12] | 0x80]) + l[13:], 'effective'),
     ]
     if direction == S2C:
         eds.append(('banner-before', lambda l: b'welcome to the machine\r\n' + l, 'neutral'))
@@ -449,9 +450,13 @@ def kexinit_edits(rng: random.Random) -> List[Tuple[str, Callable[[bytes], Any],
         ('hostkey-append', with_k(lambda k: k['hostkey'].append(b'ssh-rsa')), 'effective'),
         ('hostkey-replace', with_k(setf('hostkey', [b'ssh-dss'])), 'effective'),
         ('enc-empty', with_k(setf('enc_cs', [])), 'effective'),
+        ('enc-non-ascii', with_k(setf('enc_sc', [b'aes\xff-ctr'])), 'effective'),
+        ('kex-non-ascii', with_k(lambda k: k['kex'].insert(0, b'\xc3\xa9')), 'effective'),
         ('no-markers', with_k(no_markers), 'effective'),
         ('no-strict', with_k(no_strict), 'effective'),
         ('first-follows', with_k(setf('follows', 1)), 'effective'),
+        ('first-follows-wrong-guess', with_k(lambda k: (k['kex'].insert(0, b'guessed-kex'), k.update(follows=1))),
+         'effective'),
         ('reserved', with_k(setf('reserved', 1 + rng.randrange(1 << 31))), 'effective'),
         ('lang', with_k(setf('lang_cs', [b'en'])), 'effective'),
         ('trailing-byte', lambda p: p + b'\0', 'effective'),
@@ -576,20 +581,15 @@ def gen_edit_case(rng: random.Random, alg: str, other_key: bytes) -> Dict[str, A
 
 
 def kex_schedule(ctx: Ctx, rng: random.Random, n: int) -> List[str]:
-    """every registered method at least once (the slow groups once, in thorough only), the rest on fast methods"""
+    """every registered method at least once, the rest of the volume on the fast methods"""
     algs = kex_algs()
     fast = [a for a in algs if not any(s in a for s in SLOW_KEX)]
-    slow = [a for a in algs if any(s in a for s in SLOW_KEX)]
-    out = list(fast)
-    if ctx.tier == 'thorough' or ctx.escalated:
-        out += slow
-    else:
-        out += [a for a in slow if 'group1-sha1' not in a and 'group18' not in a and 'group17' not in a][:3]
+    out = list(algs)
     weights = [a for a in fast if form_of(a) in ('ecdh', 'hybrid')] * 3 + fast
     while len(out) < n:
         out.append(rng.choice(weights))
     rng.shuffle(out)
-    return out[:max(n, len(out))]
+    return out
 
 
 # ---------------------------------------------------------------------------
